@@ -13,6 +13,7 @@ LEVEL_TEXT = ("Static structural proof of necessary conditions: (R15.1) alias-ba
               "(R15.3) in the grouping parser each branch taken on an opening symbol reaches its end only through a test "
               "of the matching closing token whose failing edge raises, and _parse raises when tokens remain. Matching "
               "semantics, the algebraic laws and sibling-order invariance are NOT decided.")
+LEVEL_EXTRA = 'Added after the seeded evaluation: (R15.3) every opening grouping token, including the exact-match form, tests its closing token and raises, and the token fetcher raises past the end; (R15.4) search results are merged and compared by object identity, never by tag equality.'
 
 ACCESSORS = ["find_tags", "find_wildcard_tags", "find_exact_tags", "find_def_tags", "find_tags_with_term",
              "get_all_tags", "get_all_groups", "tags", "groups", "find_placeholder_tag"]
